@@ -162,6 +162,24 @@ theorem hosvd_loop {eigh : Nat → Mat ℝ → List ℝ × Mat ℝ} (hE : EighCo
     h
   simpa using this
 
+theorem ranksExceed_false {ranks shape : List Nat} :
+    ranksExceed ranks shape = false ↔ ∀ k < shape.length, ranks.getD k 0 ≤ shape.getD k 0 := by
+  simp [ranksExceed, List.any_eq_false]
+
+/-- A successful run was given ranks within the mode sizes (b0b6c00). -/
+theorem hosvdRun_ranks_le {eigh : Nat → Mat ℝ → List ℝ × Mat ℝ} {X : Dense ℝ} {tol : ℝ} {dimorder : Option (List Nat)}
+    {seq : Bool} {ranks : Option (List Nat)} {T : Ttensor ℝ} {tr : List (ModeRec ℝ)}
+    (h : hosvdRun realOps eigh X tol dimorder seq ranks = .ok (T, tr)) :
+    ∀ k < X.shape.length, (reqRanks ranks X.shape.length).getD k 0 ≤ X.shape.getD k 0 := by
+  unfold hosvdRun at h
+  simp only at h
+  split at h
+  · cases h
+  split at h
+  · cases h
+  rename_i h1r
+  exact ranksExceed_false.1 (by simpa using h1r)
+
 /-- Unfolding of a successful run. -/
 theorem hosvdRun_ok {eigh : Nat → Mat ℝ → List ℝ × Mat ℝ} {X : Dense ℝ} {tol : ℝ} {dimorder : Option (List Nat)}
     {seq : Bool} {ranks : Option (List Nat)} {T : Ttensor ℝ} {tr : List (ModeRec ℝ)}
@@ -178,6 +196,8 @@ theorem hosvdRun_ok {eigh : Nat → Mat ℝ → List ℝ × Mat ℝ} {X : Dense 
   split at h
   · cases h
   rename_i h1
+  split at h
+  · cases h
   split at h
   · cases h
   rename_i h2
